@@ -395,3 +395,196 @@ package core
 //@   ensures #set: has(qt.quotaNodes, groupName) ==> qt.quotaNodes[groupName].guarantee == guarantee
 //@   ensures #frame: forall q *quotaNode :: !(has(qt.quotaNodes, groupName) && q == qt.quotaNodes[groupName]) ==> q.guarantee == old(q.guarantee)
 //@   modifies all(quotaNode).guarantee
+
+// ---------- propagation of a delta along the parent chain (C01) ----------
+
+// Hypothesis on the parent links, used as antecedent of the chain postconditions below (not as a precondition, so the
+// verified callers need not establish it): following ParentName through quotaInfoMap strictly decreases some rank, i.e.
+// the links are acyclic (property C15) and every walk to the root is finite. qrank is an uninterpreted ghost function;
+// the clauses hold for EVERY rank function with that decrease.
+//@ spec func qrank(q *QuotaInfo) int
+//@ spec func parentsRanked(gqm *GroupQuotaManager) bool = forall k string :: {gqm.quotaInfoMap[k]} gqm.quotaInfoMap[k] != nil && gqm.quotaInfoMap[k].Name != extension.RootQuotaName && gqm.quotaInfoMap[gqm.quotaInfoMap[k].ParentName] != nil ==> qrank(gqm.quotaInfoMap[gqm.quotaInfoMap[k].ParentName]) < qrank(gqm.quotaInfoMap[k])
+//@ spec func onSlice(c []*QuotaInfo, q *QuotaInfo) bool = exists j int :: {c[j]} 0 <= j && j < len(c) && c[j] == q
+//@ spec func distinctSlice(c []*QuotaInfo) bool = forall i int, j int :: {c[i], c[j]} 0 <= i && i < j && j < len(c) ==> c[i] != c[j]
+
+// State-based name for "q is on the walk that starts at object x": qreach is an uninterpreted ghost relation, reachDef says
+// that it unfolds along ParentName / quotaInfoMap and stops at the root. Clauses with reachDef as antecedent hold for EVERY
+// relation with that unfolding; unlike the lastresult(..) clauses they are usable at call sites.
+//@ spec func qreach(gqm *GroupQuotaManager, x *QuotaInfo, q *QuotaInfo) bool
+//@ spec func reachDef(gqm *GroupQuotaManager) bool = forall x *QuotaInfo, q *QuotaInfo :: {qreach(gqm, x, q)} qreach(gqm, x, q) <==> (x != nil && (q == x || (x.Name != extension.RootQuotaName && qreach(gqm, gqm.quotaInfoMap[x.ParentName], q))))
+
+// The walk: target first, then the quota stored under the ParentName of the previous one, up to and including the first
+// quota named root; it stops early when a parent is not in the map. Exact description of the returned list.
+//@ func (*GroupQuotaManager).getCurToAllParentGroupQuotaInfoNoLock [C01]
+//@   requires gqm != nil
+//@   ensures #fresh: fresh(result)
+//@   ensures #empty: len(result) == 0 <==> gqm.quotaInfoMap[quotaName] == nil
+//@   ensures #first: len(result) > 0 ==> result[0] == gqm.quotaInfoMap[quotaName]
+//@   ensures #nonnil: forall j int :: {result[j]} 0 <= j && j < len(result) ==> result[j] != nil
+//@   ensures #link: forall j int :: {result[j]} 0 < j && j < len(result) ==> result[j] == gqm.quotaInfoMap[result[j-1].ParentName] && result[j-1].Name != extension.RootQuotaName
+//@   ensures #up: forall j int :: {result[j]} 0 <= j && j + 1 < len(result) ==> result[j+1] == gqm.quotaInfoMap[result[j].ParentName]
+//@   ensures #end: len(result) > 0 ==> result[len(result)-1].Name == extension.RootQuotaName || gqm.quotaInfoMap[result[len(result)-1].ParentName] == nil
+//@   ensures #inner: forall j int :: {result[j]} 0 <= j && j < len(result) - 1 ==> result[j].Name != extension.RootQuotaName
+//@   ensures #distinct: parentsRanked(gqm) ==> distinctSlice(result)
+//@   ensures #reach: old(reachDef(gqm)) ==> (forall q *QuotaInfo :: {qreach(gqm, gqm.quotaInfoMap[quotaName], q)} qreach(gqm, gqm.quotaInfoMap[quotaName], q) <==> onSlice(result, q))
+//@   modifies nothing
+//@   loop 1 invariant quotaInfo != nil && fresh(curToAllParInfos) && len(curToAllParInfos) >= 0
+//@   loop 1 invariant #next: len(curToAllParInfos) == 0 ? quotaInfo == gqm.quotaInfoMap[quotaName] : (quotaInfo == gqm.quotaInfoMap[curToAllParInfos[len(curToAllParInfos)-1].ParentName] && curToAllParInfos[len(curToAllParInfos)-1].Name != extension.RootQuotaName)
+//@   loop 1 invariant #first: len(curToAllParInfos) > 0 ==> curToAllParInfos[0] == gqm.quotaInfoMap[quotaName]
+//@   loop 1 invariant #nonnil: forall j int :: {curToAllParInfos[j]} 0 <= j && j < len(curToAllParInfos) ==> curToAllParInfos[j] != nil
+//@   loop 1 invariant #link: forall j int :: {curToAllParInfos[j]} 0 < j && j < len(curToAllParInfos) ==> curToAllParInfos[j] == gqm.quotaInfoMap[curToAllParInfos[j-1].ParentName] && curToAllParInfos[j-1].Name != extension.RootQuotaName
+//@   loop 1 invariant #up: forall j int :: {curToAllParInfos[j]} 0 <= j && j + 1 < len(curToAllParInfos) ==> curToAllParInfos[j+1] == gqm.quotaInfoMap[curToAllParInfos[j].ParentName]
+//@   loop 1 invariant #inner: forall j int :: {curToAllParInfos[j]} 0 <= j && j < len(curToAllParInfos) - 1 ==> curToAllParInfos[j].Name != extension.RootQuotaName
+//@   loop 1 invariant #reach: old(reachDef(gqm)) ==> (forall q *QuotaInfo :: {qreach(gqm, gqm.quotaInfoMap[quotaName], q)} qreach(gqm, gqm.quotaInfoMap[quotaName], q) <==> (onSlice(curToAllParInfos, q) || qreach(gqm, quotaInfo, q)))
+//@   loop 1 invariant #ranked: parentsRanked(gqm) ==> (forall j int :: {curToAllParInfos[j]} 0 <= j && j < len(curToAllParInfos) ==> qrank(quotaInfo) < qrank(curToAllParInfos[j]))
+//@   loop 1 invariant #ranks: parentsRanked(gqm) ==> (forall i int, j int :: {curToAllParInfos[i], curToAllParInfos[j]} 0 <= i && i < j && j < len(curToAllParInfos) ==> qrank(curToAllParInfos[j]) < qrank(curToAllParInfos[i]))
+
+// ---- Used: every quota on the chain gains the delta, nothing else changes ----
+
+// Allocated / Guaranteed bookkeeping (feature ElasticQuotaGuaranteeUsage) runs inside the Used propagation; for C01 only
+// its frame matters: it replaces the Allocated / Guaranteed lists by fresh ones and writes no other quota figure.
+//@ func (*QuotaInfo).addAllocatedQuotaNoLock [C01]
+//@   requires qi != nil
+//@   ensures #val: clampedSum(qi.CalculateInfo.Allocated, old(qi.CalculateInfo.Allocated), delta)
+//@   ensures #dom: sameDom(qi.CalculateInfo.Allocated, old(qi.CalculateInfo.Allocated), delta)
+//@   ensures #fresh: fresh(qi.CalculateInfo.Allocated)
+//@   modifies qi.CalculateInfo.Allocated
+//@   loop 1 invariant fresh(qi.CalculateInfo.Allocated) && sumOrZero(qi.CalculateInfo.Allocated, old(qi.CalculateInfo.Allocated), delta) && sameDom(qi.CalculateInfo.Allocated, old(qi.CalculateInfo.Allocated), delta)
+//@   loop 1 invariant forall j int :: {$range[j]} 0 <= j && j < $i ==> val(qi.CalculateInfo.Allocated, $range[j]) == 0
+
+// Every resource list that existed at entry still has the same entries. (This is the frame on list CONTENTS, written as a
+// postcondition: the engine's own frame check on map contents cannot be discharged across a loop that fills a fresh list per
+// iteration, so those functions say `modifies allmaps(..)` and prove this clause instead.)
+//@ spec func listsKept() bool = (forall m v1.ResourceList, n v1.ResourceName :: {has(m, n)} {val(m, n)} has(m, n) == old(has(m, n)) && val(m, n) == old(val(m, n))) && (forall m v1.ResourceList :: {len(m)} len(m) == old(len(m)))
+
+//@ func (*GroupQuotaManager).recursiveUpdateGroupTreeWithDeltaAllocated [C01]
+//@   requires gqm != nil
+//@   requires forall j int :: {curToAllParInfos[j]} 0 <= j && j < len(curToAllParInfos) ==> curToAllParInfos[j] != nil
+//@   ensures #lists-kept: listsKept()
+//@   modifies all(QuotaInfo).CalculateInfo.Allocated, all(QuotaInfo).CalculateInfo.Guaranteed, allmaps(deltaAllocated)
+//@   loop 1 invariant 0 <= i
+//@   loop 1 invariant #lists-kept: forall m v1.ResourceList, n v1.ResourceName :: {has(m, n)} {val(m, n)} has(m, n) == old(has(m, n)) && val(m, n) == old(val(m, n))
+//@   loop 1 invariant #lens-kept: forall m v1.ResourceList :: {len(m)} len(m) == old(len(m))
+//@   loop 2 invariant fresh(guaranteed)
+
+// Runs at the end of the Used propagation when the system / default group's used changed: recomputes the manager's cluster
+// totals; writes no QuotaInfo and no existing list.
+//@ func (*GroupQuotaManager).updateClusterTotalResourceNoLock [C01]
+//@   requires gqm != nil
+//@   ensures #total: forall n v1.ResourceName :: {val(gqm.totalResource, n)} val(gqm.totalResource, n) == old(val(gqm.totalResource, n)) + val(deltaRes, n)
+//@   modifies gqm.totalResource, gqm.totalResourceExceptSystemAndDefaultUsed
+
+//@ spec func onPrefix(c []*QuotaInfo, k int, q *QuotaInfo) bool = exists j int :: {c[j]} 0 <= j && j < k && j < len(c) && c[j] == q
+//@ spec func usedGains(q *QuotaInfo, delta v1.ResourceList) bool = clampedSum(q.CalculateInfo.Used, old(q.CalculateInfo.Used), delta) && sameDom(q.CalculateInfo.Used, old(q.CalculateInfo.Used), delta)
+//@ spec func npUsedGains(q *QuotaInfo, deltaNP v1.ResourceList) bool = clampedSum(q.CalculateInfo.NonPreemptibleUsed, old(q.CalculateInfo.NonPreemptibleUsed), deltaNP) && sameDom(q.CalculateInfo.NonPreemptibleUsed, old(q.CalculateInfo.NonPreemptibleUsed), deltaNP)
+//@ spec func selfUsedGains(q *QuotaInfo, delta v1.ResourceList, deltaNP v1.ResourceList) bool = clampedSum(q.CalculateInfo.SelfUsed, old(q.CalculateInfo.SelfUsed), delta) && sameDom(q.CalculateInfo.SelfUsed, old(q.CalculateInfo.SelfUsed), delta) && clampedSum(q.CalculateInfo.SelfNonPreemptibleUsed, old(q.CalculateInfo.SelfNonPreemptibleUsed), deltaNP) && sameDom(q.CalculateInfo.SelfNonPreemptibleUsed, old(q.CalculateInfo.SelfNonPreemptibleUsed), deltaNP)
+
+// lastresult("getCurToAll..") is the list getCurToAllParentGroupQuotaInfoNoLock(quotaName) returned (exactly described by
+// its contract: target, parent, ..., root). (Clauses naming lastresult are not assumed at this function's call sites.) Per resource name: every quota on it gains delta in Used and deltaNonPreemptibleUsed in
+// NonPreemptibleUsed (clamped at 0, the accumulator's contract), the quota at selfQuotaIndex also in SelfUsed /
+// SelfNonPreemptibleUsed; every other QuotaInfo keeps the identical lists, no other quota figure is written (frame), and
+// no list that existed before has a changed entry. "Gains exactly once" needs the chain to be repetition-free, which is
+// what the rank hypothesis provides.
+//@ func (*GroupQuotaManager).updateGroupDeltaUsedNoLock [C01]
+//@   requires gqm != nil
+//@   ensures #walked: calls("getCurToAllParentGroupQuotaInfoNoLock") == 1 && len(lastresult("getCurToAllParentGroupQuotaInfoNoLock")) >= 0
+//@   ensures #used: old(parentsRanked(gqm)) ==> (forall q *QuotaInfo :: onSlice(lastresult("getCurToAllParentGroupQuotaInfoNoLock"), q) ==> usedGains(q, delta))
+//@   ensures #npused: old(parentsRanked(gqm)) ==> (forall q *QuotaInfo :: onSlice(lastresult("getCurToAllParentGroupQuotaInfoNoLock"), q) ==> npUsedGains(q, deltaNonPreemptibleUsed))
+//@   ensures #self: old(parentsRanked(gqm)) ==> (forall q *QuotaInfo :: 0 <= selfQuotaIndex && selfQuotaIndex < len(lastresult("getCurToAllParentGroupQuotaInfoNoLock")) && lastresult("getCurToAllParentGroupQuotaInfoNoLock")[selfQuotaIndex] == q ==> selfUsedGains(q, delta, deltaNonPreemptibleUsed))
+//@   ensures #notself: forall q *QuotaInfo :: !(0 <= selfQuotaIndex && selfQuotaIndex < len(lastresult("getCurToAllParentGroupQuotaInfoNoLock")) && lastresult("getCurToAllParentGroupQuotaInfoNoLock")[selfQuotaIndex] == q) ==> q.CalculateInfo.SelfUsed == old(q.CalculateInfo.SelfUsed) && q.CalculateInfo.SelfNonPreemptibleUsed == old(q.CalculateInfo.SelfNonPreemptibleUsed)
+//@   ensures #off-chain: forall q *QuotaInfo :: !onSlice(lastresult("getCurToAllParentGroupQuotaInfoNoLock"), q) ==> q.CalculateInfo.Used == old(q.CalculateInfo.Used) && q.CalculateInfo.NonPreemptibleUsed == old(q.CalculateInfo.NonPreemptibleUsed)
+// the same, with the chain named by the reach relation (usable by callers); self flag for the indices callers pass (0: target, <0: none)
+//@   ensures #reach-used: old(parentsRanked(gqm)) && old(reachDef(gqm)) ==> (forall q *QuotaInfo :: {qreach(gqm, old(gqm.quotaInfoMap[quotaName]), q)} qreach(gqm, old(gqm.quotaInfoMap[quotaName]), q) ==> usedGains(q, delta))
+//@   ensures #reach-npused: old(parentsRanked(gqm)) && old(reachDef(gqm)) ==> (forall q *QuotaInfo :: {qreach(gqm, old(gqm.quotaInfoMap[quotaName]), q)} qreach(gqm, old(gqm.quotaInfoMap[quotaName]), q) ==> npUsedGains(q, deltaNonPreemptibleUsed))
+//@   ensures #reach-off: old(reachDef(gqm)) ==> (forall q *QuotaInfo :: {qreach(gqm, old(gqm.quotaInfoMap[quotaName]), q)} !qreach(gqm, old(gqm.quotaInfoMap[quotaName]), q) ==> q.CalculateInfo.Used == old(q.CalculateInfo.Used) && q.CalculateInfo.NonPreemptibleUsed == old(q.CalculateInfo.NonPreemptibleUsed))
+//@   ensures #reach-self: old(parentsRanked(gqm)) && selfQuotaIndex == 0 && old(gqm.quotaInfoMap[quotaName]) != nil ==> selfUsedGains(old(gqm.quotaInfoMap[quotaName]), delta, deltaNonPreemptibleUsed)
+//@   ensures #reach-notself: selfQuotaIndex <= 0 ==> (forall q *QuotaInfo :: selfQuotaIndex < 0 || q != old(gqm.quotaInfoMap[quotaName]) ==> q.CalculateInfo.SelfUsed == old(q.CalculateInfo.SelfUsed) && q.CalculateInfo.SelfNonPreemptibleUsed == old(q.CalculateInfo.SelfNonPreemptibleUsed))
+//@   ensures #lists-kept: listsKept()
+//@   modifies all(QuotaInfo).CalculateInfo.Used, all(QuotaInfo).CalculateInfo.NonPreemptibleUsed, all(QuotaInfo).CalculateInfo.SelfUsed, all(QuotaInfo).CalculateInfo.SelfNonPreemptibleUsed, all(QuotaInfo).CalculateInfo.Allocated, all(QuotaInfo).CalculateInfo.Guaranteed, gqm.totalResource, gqm.totalResourceExceptSystemAndDefaultUsed, allmaps(delta)
+//@   loop 1 invariant 0 <= i && i <= allQuotaInfoLen
+//@   loop 1 invariant #distinct: old(parentsRanked(gqm)) ==> distinctSlice(curToAllParInfos)
+//@   loop 1 invariant #done: old(parentsRanked(gqm)) ==> (forall q *QuotaInfo :: onPrefix(curToAllParInfos, i, q) ==> usedGains(q, delta))
+//@   loop 1 invariant #done-np: old(parentsRanked(gqm)) ==> (forall q *QuotaInfo :: onPrefix(curToAllParInfos, i, q) ==> npUsedGains(q, deltaNonPreemptibleUsed))
+//@   loop 1 invariant #self-done: old(parentsRanked(gqm)) ==> (forall q *QuotaInfo :: 0 <= selfQuotaIndex && selfQuotaIndex < i && curToAllParInfos[selfQuotaIndex] == q ==> selfUsedGains(q, delta, deltaNonPreemptibleUsed))
+//@   loop 1 invariant #self-rest: forall q *QuotaInfo :: !(0 <= selfQuotaIndex && selfQuotaIndex < i && curToAllParInfos[selfQuotaIndex] == q) ==> q.CalculateInfo.SelfUsed == old(q.CalculateInfo.SelfUsed) && q.CalculateInfo.SelfNonPreemptibleUsed == old(q.CalculateInfo.SelfNonPreemptibleUsed)
+//@   loop 1 invariant #rest: forall q *QuotaInfo :: !onPrefix(curToAllParInfos, i, q) ==> q.CalculateInfo.Used == old(q.CalculateInfo.Used) && q.CalculateInfo.NonPreemptibleUsed == old(q.CalculateInfo.NonPreemptibleUsed)
+//@   loop 2 invariant fresh(deltaAllocated)
+
+// ---- Request: the target gains the delta; each ancestor gains the CHANGE of its child's limited, min-raised request ----
+
+// The request a non-root group reports: the accumulated ChildRequest (own pods + children's limited requests), raised to Min
+// per dimension Min declares when the group does not lend its min (AllowLentResource == false).
+//@ spec func raisedReq(q *QuotaInfo, n v1.ResourceName) real = !q.AllowLentResource && has(q.CalculateInfo.Min, n) ? (has(q.CalculateInfo.ChildRequest, n) ? max(val(q.CalculateInfo.ChildRequest, n), val(q.CalculateInfo.Min, n)) : val(q.CalculateInfo.Min, n)) : val(q.CalculateInfo.ChildRequest, n)
+//@ spec func raisedHas(q *QuotaInfo, n v1.ResourceName) bool = has(q.CalculateInfo.ChildRequest, n) || (!q.AllowLentResource && has(q.CalculateInfo.Min, n))
+// What arrives at position j of the chain: the caller's delta at the target, above it the change of the child's limited
+// request  limitReq(child) = min(Request, Max) per dimension Max declares  (new minus old).
+//@ spec func arriving(c []*QuotaInfo, j int, d0 v1.ResourceList, n v1.ResourceName) real = j == 0 ? old(val(d0, n)) : limitReq(c[j-1], n) - old(limitReq(c[j-1], n))
+// Hypotheses of the chain clauses: no quota object occurs twice on the chain, and the parent of every non-root quota on it
+// has a runtime calculator (the walk stops silently where one is missing; updateQuotaInternalNoLock creates one per parent).
+//@ spec func chainHyp(gqm *GroupQuotaManager, c []*QuotaInfo) bool = distinctSlice(c) && (forall j int :: {c[j]} 0 <= j && j < len(c) && c[j].Name != extension.RootQuotaName ==> gqm.runtimeQuotaCalculatorMap[c[j].ParentName] != nil)
+
+//@ func (*GroupQuotaManager).recursiveUpdateGroupTreeWithDeltaRequest [C01]
+//@   requires gqm != nil
+//@   requires #nonnil: forall j int :: {curToAllParInfos[j]} 0 <= j && j < len(curToAllParInfos) ==> curToAllParInfos[j] != nil
+//@   requires #inner: forall j int :: {curToAllParInfos[j]} 0 <= j && j < len(curToAllParInfos) - 1 ==> curToAllParInfos[j].Name != extension.RootQuotaName
+//@   ensures #child: chainHyp(gqm, curToAllParInfos) ==> (forall j int, n v1.ResourceName :: 0 <= j && j < len(curToAllParInfos) && curToAllParInfos[j].Name != extension.RootQuotaName ==> val(curToAllParInfos[j].CalculateInfo.ChildRequest, n) == max0(old(val(curToAllParInfos[j].CalculateInfo.ChildRequest, n)) + arriving(curToAllParInfos, j, deltaReq, n)))
+//@   ensures #request: chainHyp(gqm, curToAllParInfos) ==> (forall j int, n v1.ResourceName :: 0 <= j && j < len(curToAllParInfos) && curToAllParInfos[j].Name != extension.RootQuotaName ==> val(curToAllParInfos[j].CalculateInfo.Request, n) == raisedReq(curToAllParInfos[j], n) && has(curToAllParInfos[j].CalculateInfo.Request, n) == raisedHas(curToAllParInfos[j], n))
+//@   ensures #root: chainHyp(gqm, curToAllParInfos) ==> (forall j int, n v1.ResourceName :: 0 <= j && j < len(curToAllParInfos) && curToAllParInfos[j].Name == extension.RootQuotaName ==> val(curToAllParInfos[j].CalculateInfo.Request, n) == max0(old(val(curToAllParInfos[j].CalculateInfo.Request, n)) + arriving(curToAllParInfos, j, deltaReq, n)) && curToAllParInfos[j].CalculateInfo.ChildRequest == old(curToAllParInfos[j].CalculateInfo.ChildRequest))
+// the same two clauses seen from the child at position j (parent at j+1)
+//@   ensures #step-up: chainHyp(gqm, curToAllParInfos) ==> (forall j int :: {curToAllParInfos[j]} 0 <= j && j + 1 < len(curToAllParInfos) && curToAllParInfos[j+1].Name != extension.RootQuotaName ==> (forall n v1.ResourceName :: {val(curToAllParInfos[j+1].CalculateInfo.ChildRequest, n)} val(curToAllParInfos[j+1].CalculateInfo.ChildRequest, n) == max0(old(val(curToAllParInfos[j+1].CalculateInfo.ChildRequest, n)) + limitReq(curToAllParInfos[j], n) - old(limitReq(curToAllParInfos[j], n)))))
+//@   ensures #root-up: chainHyp(gqm, curToAllParInfos) ==> (forall j int :: {curToAllParInfos[j]} 0 <= j && j + 1 < len(curToAllParInfos) && curToAllParInfos[j+1].Name == extension.RootQuotaName ==> (forall n v1.ResourceName :: {val(curToAllParInfos[j+1].CalculateInfo.Request, n)} val(curToAllParInfos[j+1].CalculateInfo.Request, n) == max0(old(val(curToAllParInfos[j+1].CalculateInfo.Request, n)) + limitReq(curToAllParInfos[j], n) - old(limitReq(curToAllParInfos[j], n)))))
+//@   ensures #np: chainHyp(gqm, curToAllParInfos) ==> (forall j int, n v1.ResourceName :: 0 <= j && j < len(curToAllParInfos) ==> val(curToAllParInfos[j].CalculateInfo.NonPreemptibleRequest, n) == max0(old(val(curToAllParInfos[j].CalculateInfo.NonPreemptibleRequest, n)) + old(val(deltaNonPreemptibleRequest, n))))
+//@   ensures #self: chainHyp(gqm, curToAllParInfos) && 0 <= selfQuotaIndex && selfQuotaIndex < len(curToAllParInfos) ==> (forall n v1.ResourceName :: val(curToAllParInfos[selfQuotaIndex].CalculateInfo.SelfRequest, n) == max0(old(val(curToAllParInfos[selfQuotaIndex].CalculateInfo.SelfRequest, n)) + arriving(curToAllParInfos, selfQuotaIndex, deltaReq, n)) && val(curToAllParInfos[selfQuotaIndex].CalculateInfo.SelfNonPreemptibleRequest, n) == max0(old(val(curToAllParInfos[selfQuotaIndex].CalculateInfo.SelfNonPreemptibleRequest, n)) + old(val(deltaNonPreemptibleRequest, n))))
+//@   ensures #notself: forall q *QuotaInfo :: !(0 <= selfQuotaIndex && selfQuotaIndex < len(curToAllParInfos) && curToAllParInfos[selfQuotaIndex] == q) ==> q.CalculateInfo.SelfRequest == old(q.CalculateInfo.SelfRequest) && q.CalculateInfo.SelfNonPreemptibleRequest == old(q.CalculateInfo.SelfNonPreemptibleRequest)
+//@   ensures #off-chain: forall q *QuotaInfo :: !onSlice(curToAllParInfos, q) ==> q.CalculateInfo.Request == old(q.CalculateInfo.Request) && q.CalculateInfo.NonPreemptibleRequest == old(q.CalculateInfo.NonPreemptibleRequest) && q.CalculateInfo.ChildRequest == old(q.CalculateInfo.ChildRequest)
+//@   ensures #lists-kept: listsKept()
+//@   modifies all(QuotaInfo).CalculateInfo.Request, all(QuotaInfo).CalculateInfo.NonPreemptibleRequest, all(QuotaInfo).CalculateInfo.ChildRequest, all(QuotaInfo).CalculateInfo.SelfRequest, all(QuotaInfo).CalculateInfo.SelfNonPreemptibleRequest, allmaps(deltaReq)
+//@   loop 1 invariant #bounds: 0 <= i && i <= len(curToAllParInfos)
+//@   loop 1 invariant #nonroot: forall j int :: {curToAllParInfos[j]} 0 <= j && j < i ==> curToAllParInfos[j].Name != extension.RootQuotaName
+//@   loop 1 invariant #delta: chainHyp(gqm, curToAllParInfos) ==> (forall n v1.ResourceName :: {val(deltaReq, n)} val(deltaReq, n) == arriving(curToAllParInfos, i, old(deltaReq), n))
+//@   loop 1 invariant #child: chainHyp(gqm, curToAllParInfos) ==> (forall j int, n v1.ResourceName :: 0 <= j && j < i ==> val(curToAllParInfos[j].CalculateInfo.ChildRequest, n) == max0(old(val(curToAllParInfos[j].CalculateInfo.ChildRequest, n)) + arriving(curToAllParInfos, j, old(deltaReq), n)))
+//@   loop 1 invariant #request: chainHyp(gqm, curToAllParInfos) ==> (forall j int, n v1.ResourceName :: 0 <= j && j < i ==> val(curToAllParInfos[j].CalculateInfo.Request, n) == raisedReq(curToAllParInfos[j], n))
+//@   loop 1 invariant #reqdom: chainHyp(gqm, curToAllParInfos) ==> (forall j int, n v1.ResourceName :: 0 <= j && j < i ==> has(curToAllParInfos[j].CalculateInfo.Request, n) == raisedHas(curToAllParInfos[j], n))
+//@   loop 1 invariant #np: chainHyp(gqm, curToAllParInfos) ==> (forall j int, n v1.ResourceName :: 0 <= j && j < i ==> val(curToAllParInfos[j].CalculateInfo.NonPreemptibleRequest, n) == max0(old(val(curToAllParInfos[j].CalculateInfo.NonPreemptibleRequest, n)) + old(val(deltaNonPreemptibleRequest, n))))
+//@   loop 1 invariant #self: chainHyp(gqm, curToAllParInfos) && 0 <= selfQuotaIndex && selfQuotaIndex < i ==> (forall n v1.ResourceName :: val(curToAllParInfos[selfQuotaIndex].CalculateInfo.SelfRequest, n) == max0(old(val(curToAllParInfos[selfQuotaIndex].CalculateInfo.SelfRequest, n)) + arriving(curToAllParInfos, selfQuotaIndex, old(deltaReq), n)) && val(curToAllParInfos[selfQuotaIndex].CalculateInfo.SelfNonPreemptibleRequest, n) == max0(old(val(curToAllParInfos[selfQuotaIndex].CalculateInfo.SelfNonPreemptibleRequest, n)) + old(val(deltaNonPreemptibleRequest, n))))
+//@   loop 1 invariant #self-rest: forall q *QuotaInfo :: !(0 <= selfQuotaIndex && selfQuotaIndex < i && curToAllParInfos[selfQuotaIndex] == q) ==> q.CalculateInfo.SelfRequest == old(q.CalculateInfo.SelfRequest) && q.CalculateInfo.SelfNonPreemptibleRequest == old(q.CalculateInfo.SelfNonPreemptibleRequest)
+//@   loop 1 invariant #rest: forall q *QuotaInfo :: !onPrefix(curToAllParInfos, i, q) ==> q.CalculateInfo.Request == old(q.CalculateInfo.Request) && q.CalculateInfo.NonPreemptibleRequest == old(q.CalculateInfo.NonPreemptibleRequest) && q.CalculateInfo.ChildRequest == old(q.CalculateInfo.ChildRequest)
+//@   loop 1 invariant #lists-kept: listsKept()
+//@   loop 2 invariant #copy: realRequest != nil && fresh(realRequest)
+//@   loop 2 invariant #seenin: forall n v1.ResourceName :: {$seen[n]} $seen[n] ==> has(curQuotaInfo.CalculateInfo.Min, n)
+//@   loop 2 invariant #raised: forall n v1.ResourceName :: {val(realRequest, n)} val(realRequest, n) == ($seen[n] ? (has(curQuotaInfo.CalculateInfo.ChildRequest, n) ? max(val(curQuotaInfo.CalculateInfo.ChildRequest, n), val(curQuotaInfo.CalculateInfo.Min, n)) : val(curQuotaInfo.CalculateInfo.Min, n)) : val(curQuotaInfo.CalculateInfo.ChildRequest, n))
+//@   loop 2 invariant #raisedhas: forall n v1.ResourceName :: {has(realRequest, n)} has(realRequest, n) == (has(curQuotaInfo.CalculateInfo.ChildRequest, n) || $seen[n])
+
+// The entry point. lastresult("getCurToAll..") is the list getCurToAllParentGroupQuotaInfoNoLock(quotaName) returned (target,
+// parent, ..., root; exactly described by that function's contract). Hypotheses (antecedents, see above): the parent links are ranked
+// (acyclic), and every non-root quota's parent has a runtime calculator.
+//@ spec func calcsPresent(gqm *GroupQuotaManager) bool = forall k string :: {gqm.quotaInfoMap[k]} gqm.quotaInfoMap[k] != nil && gqm.quotaInfoMap[k].Name != extension.RootQuotaName ==> gqm.runtimeQuotaCalculatorMap[gqm.quotaInfoMap[k].ParentName] != nil
+//@ spec func reqHyp(gqm *GroupQuotaManager) bool = old(parentsRanked(gqm)) && old(calcsPresent(gqm))
+//@ func (*GroupQuotaManager).updateGroupDeltaRequestNoLock [C01]
+//@   requires gqm != nil
+//@   ensures #walked: calls("getCurToAllParentGroupQuotaInfoNoLock") == 1 && len(lastresult("getCurToAllParentGroupQuotaInfoNoLock")) >= 0
+// target (a non-root group): ChildRequest gains the delta
+//@   ensures #target: reqHyp(gqm) ==> (forall q *QuotaInfo, n v1.ResourceName :: len(lastresult("getCurToAllParentGroupQuotaInfoNoLock")) > 0 && lastresult("getCurToAllParentGroupQuotaInfoNoLock")[0] == q && q.Name != extension.RootQuotaName ==> val(q.CalculateInfo.ChildRequest, n) == max0(old(val(q.CalculateInfo.ChildRequest, n)) + old(val(deltaReq, n))))
+// child p -> parent q (non-root): the parent's ChildRequest gains exactly the change of the child's limited request
+//@   ensures #parent-step: reqHyp(gqm) ==> (forall j int, p *QuotaInfo, q *QuotaInfo, n v1.ResourceName :: 0 < j && j < len(lastresult("getCurToAllParentGroupQuotaInfoNoLock")) && lastresult("getCurToAllParentGroupQuotaInfoNoLock")[j-1] == p && lastresult("getCurToAllParentGroupQuotaInfoNoLock")[j] == q && q.Name != extension.RootQuotaName ==> val(q.CalculateInfo.ChildRequest, n) == max0(old(val(q.CalculateInfo.ChildRequest, n)) + limitReq(p, n) - old(limitReq(p, n))))
+// every non-root group on the chain reports ChildRequest raised to Min where it does not lend
+//@   ensures #request: reqHyp(gqm) ==> (forall q *QuotaInfo, n v1.ResourceName :: onSlice(lastresult("getCurToAllParentGroupQuotaInfoNoLock"), q) && q.Name != extension.RootQuotaName ==> val(q.CalculateInfo.Request, n) == raisedReq(q, n) && has(q.CalculateInfo.Request, n) == raisedHas(q, n))
+// the root only accumulates Request (no ChildRequest, no raise)
+//@   ensures #root-step: reqHyp(gqm) ==> (forall j int, p *QuotaInfo, q *QuotaInfo, n v1.ResourceName :: 0 < j && j < len(lastresult("getCurToAllParentGroupQuotaInfoNoLock")) && lastresult("getCurToAllParentGroupQuotaInfoNoLock")[j-1] == p && lastresult("getCurToAllParentGroupQuotaInfoNoLock")[j] == q && q.Name == extension.RootQuotaName ==> val(q.CalculateInfo.Request, n) == max0(old(val(q.CalculateInfo.Request, n)) + limitReq(p, n) - old(limitReq(p, n))) && q.CalculateInfo.ChildRequest == old(q.CalculateInfo.ChildRequest))
+//@   ensures #root-target: reqHyp(gqm) ==> (forall q *QuotaInfo, n v1.ResourceName :: len(lastresult("getCurToAllParentGroupQuotaInfoNoLock")) > 0 && lastresult("getCurToAllParentGroupQuotaInfoNoLock")[0] == q && q.Name == extension.RootQuotaName ==> val(q.CalculateInfo.Request, n) == max0(old(val(q.CalculateInfo.Request, n)) + old(val(deltaReq, n))) && q.CalculateInfo.ChildRequest == old(q.CalculateInfo.ChildRequest))
+// the non-preemptible request is not limited: every quota on the chain gains the raw delta
+//@   ensures #np: reqHyp(gqm) ==> (forall q *QuotaInfo, n v1.ResourceName :: onSlice(lastresult("getCurToAllParentGroupQuotaInfoNoLock"), q) ==> val(q.CalculateInfo.NonPreemptibleRequest, n) == max0(old(val(q.CalculateInfo.NonPreemptibleRequest, n)) + old(val(deltaNonPreemptibleRequest, n))))
+//@   ensures #self: reqHyp(gqm) && selfQuotaIndex == 0 ==> (forall q *QuotaInfo, n v1.ResourceName :: len(lastresult("getCurToAllParentGroupQuotaInfoNoLock")) > 0 && lastresult("getCurToAllParentGroupQuotaInfoNoLock")[0] == q ==> val(q.CalculateInfo.SelfRequest, n) == max0(old(val(q.CalculateInfo.SelfRequest, n)) + old(val(deltaReq, n))) && val(q.CalculateInfo.SelfNonPreemptibleRequest, n) == max0(old(val(q.CalculateInfo.SelfNonPreemptibleRequest, n)) + old(val(deltaNonPreemptibleRequest, n))))
+//@   ensures #notself: forall q *QuotaInfo :: !(0 <= selfQuotaIndex && selfQuotaIndex < len(lastresult("getCurToAllParentGroupQuotaInfoNoLock")) && lastresult("getCurToAllParentGroupQuotaInfoNoLock")[selfQuotaIndex] == q) ==> q.CalculateInfo.SelfRequest == old(q.CalculateInfo.SelfRequest) && q.CalculateInfo.SelfNonPreemptibleRequest == old(q.CalculateInfo.SelfNonPreemptibleRequest)
+//@   ensures #off-chain: forall q *QuotaInfo :: !onSlice(lastresult("getCurToAllParentGroupQuotaInfoNoLock"), q) ==> q.CalculateInfo.Request == old(q.CalculateInfo.Request) && q.CalculateInfo.NonPreemptibleRequest == old(q.CalculateInfo.NonPreemptibleRequest) && q.CalculateInfo.ChildRequest == old(q.CalculateInfo.ChildRequest)
+// the same, with the chain named by the reach relation (usable by callers): p on the chain, q = the quota stored under p.ParentName
+//@   ensures #reach-target: reqHyp(gqm) && old(gqm.quotaInfoMap[quotaName]) != nil && old(gqm.quotaInfoMap[quotaName]).Name != extension.RootQuotaName ==> (forall n v1.ResourceName :: val(old(gqm.quotaInfoMap[quotaName]).CalculateInfo.ChildRequest, n) == max0(old(val(gqm.quotaInfoMap[quotaName].CalculateInfo.ChildRequest, n)) + old(val(deltaReq, n))))
+//@   ensures #reach-step: reqHyp(gqm) && old(reachDef(gqm)) ==> (forall p *QuotaInfo, q *QuotaInfo :: {qreach(gqm, old(gqm.quotaInfoMap[quotaName]), p), qreach(gqm, old(gqm.quotaInfoMap[quotaName]), q)} qreach(gqm, old(gqm.quotaInfoMap[quotaName]), p) && p.Name != extension.RootQuotaName && q != nil && q == old(gqm.quotaInfoMap[p.ParentName]) && q.Name != extension.RootQuotaName ==> (forall n v1.ResourceName :: val(q.CalculateInfo.ChildRequest, n) == max0(old(val(q.CalculateInfo.ChildRequest, n)) + limitReq(p, n) - old(limitReq(p, n)))))
+//@   ensures #reach-root: reqHyp(gqm) && old(reachDef(gqm)) ==> (forall p *QuotaInfo, q *QuotaInfo :: {qreach(gqm, old(gqm.quotaInfoMap[quotaName]), p), qreach(gqm, old(gqm.quotaInfoMap[quotaName]), q)} qreach(gqm, old(gqm.quotaInfoMap[quotaName]), p) && p.Name != extension.RootQuotaName && q != nil && q == old(gqm.quotaInfoMap[p.ParentName]) && q.Name == extension.RootQuotaName ==> (forall n v1.ResourceName :: val(q.CalculateInfo.Request, n) == max0(old(val(q.CalculateInfo.Request, n)) + limitReq(p, n) - old(limitReq(p, n)))))
+//@   ensures #reach-request: reqHyp(gqm) && old(reachDef(gqm)) ==> (forall q *QuotaInfo :: {qreach(gqm, old(gqm.quotaInfoMap[quotaName]), q)} qreach(gqm, old(gqm.quotaInfoMap[quotaName]), q) && q.Name != extension.RootQuotaName ==> (forall n v1.ResourceName :: val(q.CalculateInfo.Request, n) == raisedReq(q, n) && has(q.CalculateInfo.Request, n) == raisedHas(q, n)))
+//@   ensures #reach-np: reqHyp(gqm) && old(reachDef(gqm)) ==> (forall q *QuotaInfo :: {qreach(gqm, old(gqm.quotaInfoMap[quotaName]), q)} qreach(gqm, old(gqm.quotaInfoMap[quotaName]), q) ==> (forall n v1.ResourceName :: val(q.CalculateInfo.NonPreemptibleRequest, n) == max0(old(val(q.CalculateInfo.NonPreemptibleRequest, n)) + old(val(deltaNonPreemptibleRequest, n)))))
+//@   ensures #reach-off: old(reachDef(gqm)) ==> (forall q *QuotaInfo :: {qreach(gqm, old(gqm.quotaInfoMap[quotaName]), q)} !qreach(gqm, old(gqm.quotaInfoMap[quotaName]), q) ==> q.CalculateInfo.Request == old(q.CalculateInfo.Request) && q.CalculateInfo.NonPreemptibleRequest == old(q.CalculateInfo.NonPreemptibleRequest) && q.CalculateInfo.ChildRequest == old(q.CalculateInfo.ChildRequest))
+//@   ensures #reach-self: reqHyp(gqm) && selfQuotaIndex == 0 && old(gqm.quotaInfoMap[quotaName]) != nil ==> (forall n v1.ResourceName :: val(old(gqm.quotaInfoMap[quotaName]).CalculateInfo.SelfRequest, n) == max0(old(val(gqm.quotaInfoMap[quotaName].CalculateInfo.SelfRequest, n)) + old(val(deltaReq, n))) && val(old(gqm.quotaInfoMap[quotaName]).CalculateInfo.SelfNonPreemptibleRequest, n) == max0(old(val(gqm.quotaInfoMap[quotaName].CalculateInfo.SelfNonPreemptibleRequest, n)) + old(val(deltaNonPreemptibleRequest, n))))
+//@   ensures #reach-notself: selfQuotaIndex <= 0 ==> (forall q *QuotaInfo :: selfQuotaIndex < 0 || q != old(gqm.quotaInfoMap[quotaName]) ==> q.CalculateInfo.SelfRequest == old(q.CalculateInfo.SelfRequest) && q.CalculateInfo.SelfNonPreemptibleRequest == old(q.CalculateInfo.SelfNonPreemptibleRequest))
+//@   ensures #lists-kept: listsKept()
+//@   modifies all(QuotaInfo).CalculateInfo.Request, all(QuotaInfo).CalculateInfo.NonPreemptibleRequest, all(QuotaInfo).CalculateInfo.ChildRequest, all(QuotaInfo).CalculateInfo.SelfRequest, all(QuotaInfo).CalculateInfo.SelfNonPreemptibleRequest, allmaps(deltaReq)
